@@ -275,6 +275,12 @@ def configs(tier):
                                     perm=perm1[:max(p1) + 1] if max(perm1[:max(p1) + 1]) <= 2 else perm1,
                                     perm2=perm2, container='array',
                                     n_chan=3 if method == 'correlation' else 2, remove_mean=rm))
+            # later datasets introduce labels that sort before labels already seen (free label indices)
+            for perm1, perm2 in [((0, 2, 3), (1, 0, 3)), ((3, 2, 1), (0, 1, 2))] + ([] if tier == 'quick' else [((2, 3, 0), (1, 3, 2))]):
+                for labkind in ['str', 'int']:
+                    out.append(dict(case='list', method=method, pattern=(0, 1, 2), pattern2=(0, 1, 2, 1), labkind=labkind,
+                                    perm=perm1, perm2=perm2, container='array', freeperm=True,
+                                    n_chan=3 if method == 'correlation' else 2, remove_mean=rm))
             out.append(dict(case='list_nodesc', method=method, pattern=(0, 1, 2), labkind='int', perm=(0, 1, 2),
                             container='array', n_chan=3 if method == 'correlation' else 2, remove_mean=rm))
         # movies
@@ -289,6 +295,8 @@ def configs(tier):
                                 n_chan=3 if method == 'correlation' else 2, **m))
     # fix perms that are not permutations of range(k)
     for c in out:
+        if c.get('freeperm'):
+            continue
         for key, pk in (('perm', 'pattern'), ('perm2', 'pattern2')):
             if key in c and c[key] is not None:
                 k = max(c[pk]) + 1
